@@ -144,8 +144,8 @@ module.exports = {
   rule: 'for every modified output the embedded map is decoded by an independent VLQ decoder; monitors: v3 envelope; sources == [basename(file)]; every mapping inside the input text; every copied variable reference/binding of the output (acorn AST, injected names excluded) has a mapping starting exactly at it that lands exactly on the same identifier text in the input; every mapped token of the output lies, after statement-level alignment of output and input, within the line span of the original statement it belongs to (injected let: enclosing block; prologue: must not be mapped). Workload: corpus, catalogue, random programs, layout programs (multi-line statements, CRLF, BOM, tabs, non-ASCII before identifiers), hostile file names. distinct_nontrivial = distinct (input, config, file) outputs whose map was fully checked.',
   assumptions: ['columns are UTF-16 code units on both sides (what V8 reports)', 'lone CR / U+2028 / U+2029 line terminators are not generated', 'files whose statements cannot be aligned (count mismatch) only get the envelope/range/identifier checks and are counted'],
   plan (ctx) {
-    const shards = [{ kind: 'layout', count: ctx.tier === 'thorough' ? 3000 : 200 }]
-    for (const s of structPlan(ctx, { quickCorpus: 120, exec: { quickRandom: 300, quickFormsPerPlacement: 3 } })) shards.push(s)
+    const shards = [{ kind: 'layout', count: ctx.tier === 'thorough' ? 6000 : 800 }]
+    for (const s of structPlan(ctx, { quickCorpus: 280, exec: { quickRandom: 1500, quickFormsPerPlacement: 8, thoroughRandom: 20000 } })) shards.push(s)
     return shards
   },
   minEvaluations () { return 300 },
